@@ -715,8 +715,10 @@ def flags_and_timestamps(ctx, report, R4='C11.R4', R5='C11.R5'):
     try:
         for size, shift in ((2, 0), (2, 16), (4, 0), (1, 0)):
             window = [m for m in members if (m >> shift) and (m >> shift) < (1 << (8 * size))]
+            # sets of members, and - the flag fields admit any iterable - lists that name a member twice: the encoding is the OR
+            repeated = [(window[0], window[0]), (window[0], window[-1], window[0])] if window else []
             for k in range(0, min(len(window), 3) + 1):
-                for subset in itertools.combinations(window, k):
+                for subset in list(itertools.combinations(window, k)) + (repeated if k == 2 else []):
                     report.count(R4)
                     me = State()
                     Evaluator({'self': me, 'values': list(subset), 'item_size': size, 'shift_right': shift}, cbh, cbh.name_hook_for(cb.module, free)).function(cfl.node)
